@@ -223,10 +223,12 @@ def sticky_and_ownership(ck, rule, owners=None):
                     n += 1
                     base, key = sk
                     inreset = f.name in ("reset", "__init__") and f.cls == "Fxp"
-                    if key is None:
-                        ck.unsure(rule, f, "status key is a literal", node, src(t))
-                        continue
                     if inreset:
+                        continue
+                    if key is None:
+                        # computed key: may be any flag, so the writer must own every flag
+                        ck.bad(rule, f, "status flags are written under their literal names by their owners", "%s writes %s (computed key)" % (f.qualname, src(t)), node,
+                               "a computed key can raise overflow/underflow outside the overflow handler: the flag no longer reports what happened in a write")
                         continue
                     if key in allowed and f.qualname not in allowed[key] and not (f.parent and f.parent.qualname in allowed[key]):
                         ck.bad(rule, f, "status['%s'] is written only by %s" % (key, sorted(x.split('.')[-1] for x in allowed[key])),
